@@ -4,7 +4,7 @@ import numpy as np
 from common import *
 
 ID = "C02"
-THEOREM_FILES = ["Summer.Props.C02", "Summer.Props.C02Solvers", "Summer.Props.C02Replacement", "Summer.Props.C07Source", "Summer.Props.C01Rates"]
+THEOREM_FILES = ["Summer.Props.C02", "Summer.Props.C02Solvers", "Summer.Props.C02Replacement", "Summer.Props.C07Source", "Summer.Props.C01Rates", "Summer.Props.C04Source"]
 TASK = "task"
 RULE = ("(a) arbitrary programs: at three states sum(comp_rates) must equal entry minus exit flow rates (flow ends read from model.flows); "
         "(b) closed programs (no entry/exit flows): outputs.sum(axis=1) constant for euler, rk4 (1e-9*N) and the adaptive solver "
@@ -61,7 +61,7 @@ def task(W, payload):
         opts = Opts(closed=True, max_strats=2, allow_requests=False, allow_computed=False, max_flows=6)
     elif mode == "replacement":
         opts = Opts(kinds=["transition", "death", "universal_death", "infection"], max_strats=2, allow_requests=False, allow_computed=False,
-                    max_flows=5, allow_post_flows=False)
+                    max_flows=5, allow_post_flows=False, zero_adjust_bias=0.25)
     else:
         opts = Opts(max_strats=2, allow_requests=False, allow_computed=False)
     g = Gen(r, opts)
